@@ -164,7 +164,6 @@ def run(ck):
         ck.guard("C12-R6", r6_flush, ck, F)
     from . import fixtures, witness
     ck.guard("C12-R1", fixtures.run, ck, "C12")
-    ck.guard("C12-R3", witness.run, ck, "C12")
     ck.trusted += ["rustc MIR construction", "the `?` desugaring", "From<io::Error> for Error"]
 
 
